@@ -1,5 +1,5 @@
 #!/bin/bash
-# tools/wave.sh <prop> <dir-with-_mut> [extra checks]: evaluate mutants 1..3 of a sub-agent worktree
+# tools/wave.sh <prop> <dir-with-_mut> [extra checks]: evaluate mutants 1..4 of a sub-agent worktree
 P=$1; D=$2; shift 2
 for k in 1 2 3 4; do
   [ -d "$D/_mut/$k" ] || continue
